@@ -311,8 +311,9 @@ class Ctx:
         if n == 0 and len(self.violations) < self.MAX_REPLAYS:
             path = self._write_replay(key, case, msg)
             self.violations.append((key, path, msg))
-            print('VIOLATION property=%s replay=%s' % (self.pid, path), flush=True)
-            print('  key=%s: %s' % (key, msg), flush=True)
+            if not getattr(self, 'quiet', False):
+                print('VIOLATION property=%s replay=%s' % (self.pid, path), flush=True)
+                print('  key=%s: %s' % (key, msg), flush=True)
         return True
 
     def _write_replay(self, key, case, msg):
